@@ -208,7 +208,8 @@ class AsmTransformer(Transformer):
         return {"type": "defl", "args": items}
 
     def defs_directive(self, items: List[Any]) -> DataDirectiveNode:
-        return {"type": "defs", "args": int(items[0])}
+        # NUMBER admits both decimal and 0x-prefixed hexadecimal literals.
+        return {"type": "defs", "args": int(str(items[0]), 0)}
 
     def defm_directive(self, items: List[Any]) -> DataDirectiveNode:
         return {"type": "defm", "args": items[0]}
